@@ -17,6 +17,10 @@ mod tcp;
 mod tproxy;
 mod udp;
 
+/// Verification hook (compiled only with `--cfg penguin_rs_verif`): the HTTP proxy connection handler.
+#[cfg(all(penguin_rs_verif, feature = "http-proxy"))]
+pub use self::http::verif_http_proxy_on_stream;
+
 use self::common::{bind_tcp, bind_uds};
 use self::http::handle_http;
 use self::socks::handle_socks;
